@@ -3,6 +3,7 @@ from .notification import Notification, Kind
 from .ordered_set_patch import ordered_set
 from collections.abc import MutableSet, MutableSequence
 from typing import Iterable
+from operator import index
 
 
 class BadValueError(TypeError):
@@ -247,6 +248,7 @@ class ECollection(PyEcoreValue):
 
     def insert(self, i, y):
         self.check(y)
+        i = index(i)  # refused here, before the other end is touched
         if self.is_ref:
             self._update_container(y)
             self._update_opposite(y, self.owner)
@@ -272,7 +274,9 @@ class ECollection(PyEcoreValue):
         if not self:
             return
         if self.is_ref:
-            for value in self:
+            # (a reference that is its own opposite loses elements while
+            # the other ends are released: walk a copy)
+            for value in list(self):
                 self._update_container(None, previous_value=value)
                 self._update_opposite(value, self.owner, remove=True)
         notif = Notification(old=list(self), new=[], feature=self.feature,
